@@ -169,7 +169,8 @@ def canLock (s : Sys) (i : Nat) : Bool :=
   | none => true
   | some h => h == i
 
-def clearBit (b k : Nat) : Nat := if b.testBit k then b - 2 ^ k else b
+/-- `data[0] & ~(1 << k)` -/
+def clearBit (b k : Nat) : Nat := b ^^^ (b &&& 2 ^ k)
 
 /-- `LockFile(...)` and `FMMULock(...)` -/
 def stepFiles (s : Sys) (i : Nat) (p : Proc) : Sys :=
